@@ -28,7 +28,9 @@ VARIABLES tid,     \* which trace
           vhist,   \* value ids parallel to hist
           pend,    \* value id of the transition awaiting its callback (-1: none)
           tun      \* warm-up tuning bookkeeping (growth beyond C14): <<interval, inner steps completed in this window,
-                   \*   tune already seen for the pending step>>; interval = 0 outside a warm-up window
+                   \*   tune already seen for the pending step, tune still owed for the step just recorded>>;
+                   \*   interval = 0 outside a warm-up window.  The documentation fixes the frequency and the counter of the
+                   \*   tune calls, not their place relative to the callback: both "before" and "after" are accepted.
 
 tvars == <<vars, tid, l, vhist, pend, tun>>
 
@@ -36,17 +38,17 @@ Ev       == Traces[tid].events
 IsEvent(e) == l <= Len(Ev) /\ Ev[l].e = e /\ l' = l + 1 /\ UNCHANGED tid
 
 TraceInit == /\ Init /\ iface = "stateful"
-             /\ tid \in 1..Len(Traces) /\ l = 1 /\ vhist = <<>> /\ pend = -1 /\ tun = <<0, 0, FALSE>>
+             /\ tid \in 1..Len(Traces) /\ l = 1 /\ vhist = <<>> /\ pend = -1 /\ tun = <<0, 0, FALSE, FALSE>>
 
 TBegin == /\ IsEvent("begin")
           /\ pend = -1
           /\ IF Ev[l].op = "sample" THEN BeginSample(Ev[l].n) ELSE BeginWarmup(Ev[l].n)
-          /\ tun' = <<IF Ev[l].op = "warmup" THEN Ev[l].interval ELSE 0, 0, FALSE>>
+          /\ tun' = <<IF Ev[l].op = "warmup" THEN Ev[l].interval ELSE 0, 0, FALSE, FALSE>>
           /\ UNCHANGED <<vhist, pend>>
 
 \* transition inside a window: remember its value id; outside: not a specification step
 TStep == /\ IsEvent("step")
-         /\ IF todo > 0 THEN pend = -1 /\ pend' = Ev[l].pid ELSE UNCHANGED pend
+         /\ IF todo > 0 THEN pend = -1 /\ ~tun[4] /\ pend' = Ev[l].pid ELSE UNCHANGED pend
          /\ UNCHANGED <<vars, vhist, tun>>
 
 \* tuning is due after inner step number tun[2]+1 of a warm-up window iff that number is a multiple of the interval
@@ -60,25 +62,28 @@ TCb == /\ IsEvent("cb")
        /\ Ev[l].pid = pend                        \* the state handed to the callback is the one the transition produced
        /\ vhist' = Append(vhist, pend)
        /\ pend' = -1
-       \* warm-up: if tuning was due after this transition it must have happened (Transition . Tune . Append . Callback)
-       /\ (TuneDue => tun[3])
-       /\ tun' = <<tun[1], tun[2] + 1, FALSE>>
+       \* warm-up: if tuning was due after this transition and has not happened yet it is owed before the next transition
+       /\ tun' = <<tun[1], tun[2] + 1, FALSE, TuneDue /\ ~tun[3]>>
 
 \* tune(skip_len, update_count) inside a warm-up window: only where due, once, with the documented arguments
 \* (skip_len = interval, update_count = index of the step \div interval); elsewhere (direct calls, e.g. HybridGibbs
 \* tuning its block samplers) it is not an action of this specification
 TTune == /\ IsEvent("tune")
          /\ IF Ev[l].win = 1 /\ cur[1] = "warmup"
-            THEN /\ pend >= 0 /\ TuneDue /\ ~tun[3]
-                 /\ Ev[l].skip = tun[1] /\ Ev[l].count = tun[2] \div tun[1]
-                 /\ tun' = <<tun[1], tun[2], TRUE>>
+            THEN \/ /\ pend >= 0 /\ TuneDue /\ ~tun[3]                 \* between the transition and its callback
+                    /\ Ev[l].skip = tun[1] /\ Ev[l].count = tun[2] \div tun[1]
+                    /\ tun' = <<tun[1], tun[2], TRUE, FALSE>>
+                 \/ /\ pend = -1 /\ tun[4]                              \* right after the callback of that transition
+                    /\ Ev[l].skip = tun[1] /\ Ev[l].count = (tun[2] - 1) \div tun[1]
+                    /\ tun' = <<tun[1], tun[2], FALSE, FALSE>>
             ELSE UNCHANGED tun
          /\ UNCHANGED <<vars, vhist, pend>>
 
 TEnd == /\ IsEvent("end")
         /\ Idle /\ pend = -1
         /\ Ev[l].len = Len(hist)                  \* recorded length = everything requested
-        /\ tun' = <<0, 0, FALSE>>
+        /\ ~tun[4]
+        /\ tun' = <<0, 0, FALSE, FALSE>>
         /\ UNCHANGED <<vars, vhist, pend>>
 
 \* get_samples(): the recorded chain is exactly what was appended - no entry altered, none lost, none added
